@@ -14,7 +14,7 @@ for d in sorted(glob.glob('/verif/seeded/C??-*m?/')):
     title = re.sub(r'^(Seed )?m\d\s*[-—]+\s*', '', meta['change'])
     files = ', '.join(os.path.basename(f) for f in meta['files_changed'])
     r = det[name].get(pid)
-    caught = 'caught' if r and r[0] == 1 else 'MISSED'
+    caught = 'caught' if r and r[0] == 1 else ('not run' if not r else 'not reported')
     sig = r[1] if r and r[0] == 1 else ''
     others = sorted(c for c, v in det[name].items() if v[0] == 1 and c != pid)
     print("| %s | %s (%s) | %s | `%s` | %s |" % (name, title.replace('|', '/'), files, caught, sig[:110], ', '.join(others) or '–'))
